@@ -20,6 +20,7 @@ type GenConfig struct {
 	WideAmounts   bool // amounts around 2^31, 2^32, 2^53 and up to the money supply
 	ZeroValue     bool // zero-value outputs (outside wf_universe: a separate stream)
 	MoreConflicts bool // conflicting spends twice as often
+	Restarts      bool // C12: "restart" events (close and reopen), often right after a lease
 }
 
 type simBlock struct {
@@ -48,6 +49,8 @@ type Sim struct {
 	cfg      GenConfig
 	detached []simBlock // the blocks removed by the last reorganisation, ascending (Reconnect only)
 	detBase  int64      // the height that reorganisation rolled back to (the fork point is detBase-1)
+
+	leasedOps [][2]int64 // outpoints of earlier lease events (Restarts only: contention)
 }
 
 // NewSim returns a simulator drawing from r.
@@ -660,11 +663,21 @@ func (s *Sim) leaseEvent() {
 	if len(cands) > 0 && !s.r.Chance(1, 10) {
 		op = cands[s.r.Intn(len(cands))]
 	}
+	if s.cfg.Restarts && len(s.leasedOps) > 0 && s.r.Chance(1, 2) {
+		// contention: an outpoint somebody asked a lease for before
+		op = s.leasedOps[s.r.Intn(len(s.leasedOps))]
+	}
 	switch s.r.Pick(5, 3, 4, 1) {
 	case 0:
 		dur := []int64{500, 1000, 1500, 2000, 60000}[s.r.Intn(5)]
 		id := int64(s.r.Range(1, 3))
 		s.emit(Event{K: "lease", ID: id, Op: op, Dur: dur})
+		if s.cfg.Restarts {
+			s.leasedOps = append(s.leasedOps, op)
+		}
+		if s.cfg.Restarts && s.r.Chance(1, 5) {
+			s.emit(Event{K: "restart"}) // in the middle of a lease
+		}
 	case 1:
 		s.emit(Event{K: "release", ID: int64(s.r.Range(1, 3)), Op: op})
 	case 2:
@@ -738,6 +751,9 @@ func (s *Sim) Run(cfg GenConfig) {
 				s.emit(Event{K: "seen", T: ms[s.r.Intn(len(ms))]})
 				s.Tags["redelivery"]++
 			}
+		}
+		if cfg.Restarts && s.r.Chance(1, 25) {
+			s.emit(Event{K: "restart"}) // after any event
 		}
 		if len(s.Events) == before && s.r.Chance(1, 50) {
 			break
